@@ -38,6 +38,8 @@ CHECKS = {
          "seeded search over interleaved call sequences of 1-3 external and 0-11 internal extensions (register with arbitrary names, event lists and feature headers, next, init/error, exit/error with proper, missing, invalid and unknown identifiers, calls on a second connection while parked); every verdict is compared with the reference automaton and the documented refusal types; registration data is compared with the init parameters; sampled sequences"),
  "C15": ("exploration", "3 C15", "full-stack deterministic simulation with a recording EventsAPI over the scenario families of C01/C03-C07/C09; grammar and truthfulness oracle on the event trace",
          "the generators of seven scenario families (init orders, invocation sequences, timeouts with holds, crash-point matrix, shutdown matrix, swarm, histories) are re-run under this check and the recorded platform events are judged: block structure and phase tags, one extension line per known extension with true state class and subscriptions, invoke-start/runtime-done multiplicity, success only where the driver's ground truth says the step succeeded, error type = first delivered fault; sampled"),
+ "C17": ("exploration", "3 C17", "package-level deterministic simulation: the real directinvoke + bandwidthlimiter code on the fake clock with a recording writer, a planned payload reader and injected read / write errors and resets; stateless reference parser and token-bucket oracle",
+         "seeded search over request sequences (1-4 per run after tape-drawn left-behind settings) with all optional headers absent / valid / invalid, payload sizes around the limit, chunkings and delays, read errors, broken invoker connections, resets and stuck bodies at any offset or instant, and (every third run) direct bucket parameters outside the header ranges; decides history-independent parsing and effective settings, prefix-faithful forwarding, Complete / Oversized / Truncated classification, the burst + rate x time bound at every write, and termination of copy and reset handshake; sampled"),
  "C18": ("exploration", "3 C18", "full-stack deterministic simulation in snapshot mode on the fake clock: seeded orders of restore request, restore poll, hook completion / error / overrun / exit and credentials requests",
          "seeded search over the order of the operator's restore request(s) and the runtime's restore poll, hook outcome (completes, restore/error, init/error, overruns the hook timeout by 1 ms .. 2 s, exits, never polls), reported error types, and interleaved credentials requests with right, wrong and missing tokens; decides result, step and exact fake-clock instant of every restore, every credentials response and the absence of key variables from the runtime's environment; sampled"),
 }
